@@ -133,6 +133,19 @@ pub fn generate(s: &mut Session, tier: &str, rng: &mut Rng) {
         ids.push(last);
         history(s, "edge", &ids, top);
     }
+    // the same edges at the very top of the 64-bit range (both production callers pass u64::MAX as the limit)
+    for k in 0..if tier == "thorough" { 200 } else { 24 } {
+        let last = top - 1 - (k % 4);
+        let mut ids = vec![last - 9000, last];
+        for d in [1u64, 2, 63, 64, 65, 8126, 8127, 8128, 8129, 8130, 8128, 1] {
+            ids.push(last - d);
+        }
+        ids.push(last - rng.range(1, 8128));
+        ids.push(last);
+        ids.push(top - 1);
+        ids.push(top);
+        history(s, "edge-top", &ids, top);
+    }
     // random walks: mostly small steps forward/backward, sometimes jumps beyond the ring, duplicates
     let walks = if tier == "thorough" { 400 } else { 40 };
     for _ in 0..walks {
